@@ -9,6 +9,9 @@
  *   ca:p:attr        tickit_pen_clear_attr             cl:p          tickit_pen_clear
  *   cp:dst:src:ow    tickit_pen_copy                   ct:dst:src:attr  tickit_pen_copy_attr
  *   cn:dst:src       P[dst] = tickit_pen_clone(P[src]) nw:p          P[p] = tickit_pen_new()
+ *   hk:p             take an extra reference on P[p]; its change handler drops it again in the
+ *                    middle of the next change event (the pen must survive: the library holds the
+ *                    pen while handlers run).  No effect on any getter.
  *
  * Observation: per operation  r<ret>=<dump of the written pen>;  then F<dump P0>;<dump P1>;
  * <dump P2>;E<equiv(i,j), 9 digits>:<equiv_attr(i,j,attr), 9 x 12 digits>.
@@ -22,7 +25,16 @@
 const char *__asan_default_options(void) { return "max_malloc_fill_size=4096:malloc_fill_byte=255"; }
 
 static int changes;
-static int on_change(TickitPen *pen, TickitEventFlags flags, void *info, void *user) { changes++; return 0; }
+static TickitPen *P[3];
+static int armed[3];
+static int on_change(TickitPen *pen, TickitEventFlags flags, void *info, void *user)
+{
+  changes++;
+  for(int i = 0; i < 3; i++)
+    if(P[i] == pen && armed[i]) { armed[i] = 0; tickit_pen_unref(pen); }
+  return 0;
+}
+static void disarm(int i) { if(armed[i]) { armed[i] = 0; tickit_pen_unref(P[i]); } }
 
 static const int dump_attrs[12] = { 1, 2, 3, 4, 5, 6, 7, 8, 9, 10, 0, 11 };
 
@@ -59,7 +71,7 @@ int main(void)
 {
   setvbuf(stdout, NULL, _IOLBF, 0);
   while(vh_next()) {
-    TickitPen *P[3] = { newpen(), newpen(), newpen() };
+    for(int i = 0; i < 3; i++) { P[i] = newpen(); armed[i] = 0; }
     int bad = 0;
     for(int i = 0; i < vh_ntok && !bad; i++) {
       char *f[8];
@@ -95,21 +107,23 @@ int main(void)
       else if(!strcmp(op, "cn")) {
         NEED(3); SRC(2);
         TickitPen *c = tickit_pen_clone(P[s]);
+        disarm(d);
         tickit_pen_unref(P[d]);
         P[d] = c;
       }
-      else if(!strcmp(op, "nw")) { tickit_pen_unref(P[d]); P[d] = tickit_pen_new(); }
+      else if(!strcmp(op, "nw")) { disarm(d); tickit_pen_unref(P[d]); P[d] = tickit_pen_new(); }
+      else if(!strcmp(op, "hk")) { if(!armed[d]) { tickit_pen_ref(P[d]); armed[d] = 1; } }
       else { bad = 1; break; }
       printf("r%d=", ret); dump(P[d]); printf(";");
     }
-    if(bad) { printf(" ERR op\n"); for(int i = 0; i < 3; i++) tickit_pen_unref(P[i]); continue; }
+    if(bad) { printf(" ERR op\n"); for(int i = 0; i < 3; i++) { disarm(i); tickit_pen_unref(P[i]); } continue; }
     printf("F"); dump(P[0]); printf(";"); dump(P[1]); printf(";"); dump(P[2]); printf(";E");
     for(int i = 0; i < 3; i++) for(int j = 0; j < 3; j++) printf("%d", !!tickit_pen_equiv(P[i], P[j]));
     printf(":");
     for(int i = 0; i < 3; i++) for(int j = 0; j < 3; j++)
       for(int k = 0; k < 12; k++) printf("%d", !!tickit_pen_equiv_attr(P[i], P[j], (TickitPenAttr)dump_attrs[k]));
     printf("\n");
-    for(int i = 0; i < 3; i++) tickit_pen_unref(P[i]);
+    for(int i = 0; i < 3; i++) { disarm(i); tickit_pen_unref(P[i]); }
   }
   return 0;
 }
